@@ -15,7 +15,7 @@ PROP = 'C09'
 LEVEL = 'exploration'
 CLASSES = ['tiny', 'no_control', 'no_treatment', 'all_excluded', 'empty_admitted', 'size_beyond',
            'ratio_unsat', 'share_budget_impossible', 'n_geos_max_2', 'long_test', 'window_exact',
-           'hostile_matrix', 'iroas_zero', 'fixed_overflow', 'integral_floats', 'late_start_geo', 'random']
+           'hostile_matrix', 'iroas_zero', 'fixed_overflow', 'integral_floats', 'late_start_geo', 'huge_tolerance', 'random']
 RULE = ('Each case draws one hostile input class (%s), builds fresh data / parameter / matched-markets '
         'objects and runs exhaustive_search and greedy_search at the client boundary. Series are never '
         'constant and the analysis window always holds >= n_test + 3 points, so the property applies to '
@@ -134,6 +134,15 @@ def make_hostile(r, g, cls, tier):
     case['frame'] = gen.panel_frame(pn, r, shuffle=True)
     kw.pop('budget_range', None)
     kw.pop('treatment_share_range', None)
+  elif cls == 'huge_tolerance':
+    import sys as _sys
+    big = r.choice([1e308, _sys.float_info.max, 1e300, 1e155])
+    if r.random() < 0.7:
+      kw['geo_ratio_tolerance'] = big
+    if r.random() < 0.5:
+      kw['volume_ratio_tolerance'] = r.choice([1e308, _sys.float_info.max, 1e200])
+    if r.random() < 0.3:
+      kw['iroas'] = r.choice([1e-300, 1e300])
   elif cls == 'fixed_overflow':
     case['elig_rows'] = rows_from([('t_fixed', 3), ('c_fixed', 3), ('ct', 2), ('ctx', 1)])
     kw['treatment_geos_range'] = (1, r.choice([1, 2]))
